@@ -231,15 +231,23 @@ func TestC18(t *testing.T) {
 	rec.Set("enumeration_bounds", fmt.Sprintf("all N<=%d x start in {0,5} x pct in {0,25,33,50,67,99} x all subsets of the next 3N+2 blocks (this shard: every %d-th case)", maxN, n))
 	rec.Assume("epoch length <= 10^6 in the random part (the notifier compares float64 ratios; equal rationals give equal floats, and ratios closer than 2^-53 need N > 10^7)")
 	// random part
-	rapid.Check(t, func(rt *rapid.T) {
-		c := c18Gen(choose.Rapid{T: rt}, false, 0)
-		_, nt := c18Expected(c)
-		rec.Case(nt, fmt.Sprint(c))
-		if nt {
-			rec.Class("random_nontrivial")
-		}
-		if err := c18Check(c); err != nil {
-			rt.Fatalf("%v", err)
-		}
-	})
+	rapid.Check(t, func(rt *rapid.T) { c18Prop(rt, rec) })
+}
+
+func c18Prop(rt *rapid.T, rec *ev.Recorder) {
+	c := c18Gen(choose.Rapid{T: rt}, false, 0)
+	_, nt := c18Expected(c)
+	rec.Case(nt, fmt.Sprint(c))
+	if nt {
+		rec.Class("random_nontrivial")
+	}
+	if err := c18Check(c); err != nil {
+		rt.Fatalf("%v", err)
+	}
+}
+
+// FuzzC18: the same property driven by Go's coverage-guided fuzzer through rapid's byte-stream adapter (thorough tier).
+func FuzzC18(f *testing.F) {
+	rec := ev.For("C18", c18Rule)
+	f.Fuzz(rapid.MakeFuzz(func(rt *rapid.T) { c18Prop(rt, rec) }))
 }
